@@ -90,6 +90,9 @@ def _task(kind, prop, tier, arg=None):
     if kind == 'V':
         from .. import zqrv
         return zqrv.run('bond_ops.qr') if arg != 'svd' else zqrv.run_svd('bond_ops.split_matrix_svd')
+    if kind == 'K':
+        from .. import zkry
+        return zkry.verify(prop, tier)
     if kind == 'Q':
         from .. import zqr
         which, kind = arg
@@ -144,6 +147,8 @@ def _deductive_all(prop, tier='quick'):
     tasks += [('H', prop, tier, name) for name, (mk, props) in zshape.CONTRACTS.items() if prop in props]
     if prop in ('C04', 'C08', 'C09', 'C10'):
         tasks.append(('O', prop, tier, None))
+    if prop == 'C14':
+        tasks.insert(0, ('K', prop, tier, None))
     if prop == 'C11':
         tasks.insert(0, ('V', prop, tier, None))
     if prop == 'C12':
